@@ -59,9 +59,11 @@
 (* Left nondeterministic (the property leaves it open):                    *)
 (*   - every interleaving of forwarder, exchange, engine and shutdown      *)
 (*     tasks, within a run and across runs (schedules);                    *)
-(*   - the delivery order of account events, except that an order's trade  *)
-(*     follows its balance snapshot (one task sends both on one FIFO       *)
-(*     channel) and nothing about an order precedes its sending;           *)
+(*   - the delivery order of account events (nothing about an order        *)
+(*     precedes its sending; each event is delivered at most once) - the   *)
+(*     mock exchange answers every order from its own spawned task, so     *)
+(*     answers to different orders may overtake one another, and a balance *)
+(*     snapshot does not say which order caused it;                        *)
 (*   - whether account events still pending when Shutdown is processed are *)
 (*     ever applied (shutdown_after_backtest waits only for the market     *)
 (*     forwarder; DESIGN C20).                                             *)
@@ -113,9 +115,7 @@ CanForward(r) == r.phase = "run" /\ r.cursor < r.p.n
 DoForward(r)  == [r EXCEPT !.cursor = @ + 1, !.feed = Append(@, DataItem(r.p, r.cursor + 1))]
 
 \* execution manager / mock exchange -> account_to_engine -> feed
-CanRespond(r, x) == /\ r.phase = "run"
-                    /\ x \in r.exch
-                    /\ (x.kind = "trade" => Acct(x.i, "balance") \notin r.exch)
+CanRespond(r, x) == r.phase = "run" /\ x \in r.exch
 DoRespond(r, x)  == [r EXCEPT !.exch = @ \ {x}, !.feed = Append(@, x)]
 
 \* shutdown_after_backtest: `market_to_engine.await?` THEN `feed_tx.send(Shutdown)`
@@ -218,14 +218,12 @@ IdsOf(s)   == [j \in 1..Len(s) |-> s[j].i]
 SentOK1(r) == \E acted \in {SelectSeq(r.consumed, LAMBDA x : x.i \in r.p.acts \ r.p.fatalAt)} :
                  r.sent = IdsOf(acted)
 
-\* account events concern this run's own orders only, each at most once, trade after balance
+\* account events concern this run's own orders only, each at most once
 AppliedOK1(r) ==
-    /\ \A j \in 1..Len(r.applied) :
-         /\ r.applied[j].t = "a"
-         /\ r.applied[j].i # 0 => \E m \in 1..Len(r.sent) : r.sent[m] = r.applied[j].i
-         /\ \A m \in 1..Len(r.applied) : r.applied[m] = r.applied[j] => m = j
-    /\ \A j, m \in 1..Len(r.applied) :
-         (r.applied[j].kind = "trade" /\ r.applied[m] = Acct(r.applied[j].i, "balance")) => m < j
+    \A j \in 1..Len(r.applied) :
+       /\ r.applied[j].t = "a"
+       /\ r.applied[j].i # 0 => \E m \in 1..Len(r.sent) : r.sent[m] = r.applied[j].i
+       /\ \A m \in 1..Len(r.applied) : r.applied[m] = r.applied[j] => m = j
 
 \* the summary is made once, when the engine has stopped, from this run's engine alone
 SummaryOK1(r) == /\ r.summary.made <=> r.phase = "done"
